@@ -10,5 +10,6 @@ CONSTANTS
   Cfg0 <- Cfg0C08a
   Cfgs <- AllCfgs
   Bud0 <- BudC08a
+  OwnEntryCheck = TRUE
 INVARIANTS TypeOK HeartbeatFresh
 PROPERTIES OwnEntryOnly StateEdges RefusedUntouched HeartbeatMonotone RegisteredOnce ActivationTokens ReadyImpliesActive KeepsIdentity ReRegistersFresh
